@@ -463,6 +463,12 @@ class OpaquePubKey(PubKey):  # pragma: no cover
     def __bytearray__(self):
         return self.data
 
+    def __copy__(self):
+        # the opaque octets are not among the MPI fields that MPIs.__copy__ carries over
+        pk = super(OpaquePubKey, self).__copy__()
+        pk.data = copy.copy(self.data)
+        return pk
+
     def parse(self, packet):
         ##TODO: this needs to be length-bounded to the end of the packet
         self.data = packet
